@@ -6,12 +6,15 @@ C02 driver.  One line = the whole history of ONE message id as a sequence of mod
   C02 run <maxTries> <hp> <tok>…           from the fresh id
   C02 syn <maxTries> <hp> <H> <B> <M> <N> <X> <tok>…   from a hand-made directory state, process down
 
-tokens:  A<n>,<hl>,<bl>[,<env>]  accept (recipients 1..n, header/body of hl/bl bytes; env = spelling of the
+tokens:  A<n>,<hl>,<bl>[,<env>]  accept (recipients 1..n, header/body of hl/bl bytes, bl = 0: header-only message,
+           the body file is created and stays empty, no write call is made for it; env = spelling of the
            envelope: p plain (default) | i IDN + SMTPUTF8 | q quoted local parts | m mixed recipient spellings |
            n null reverse-path | z null reverse-path + mixed recipients — the model only reads "null or not")
-         +<k>  issue k file operations
+         +<k>  issue k file operations (calls the real code made: a zero-length write is not one)
          C commit   B abort   D dispatch   O<letters o|t|p|u per recipient of the attempt>   P panic
          X<keep>  crash     T<n>;<keep>  crash in the middle of the next write after n bytes      R restart
+         S<par>  max_parallelism of the recovery runs (only in lines named by a violation; no choice of the model:
+           the history of one id does not depend on it, `C02_backlog_*`)
          keep = a (nothing lost) | d (all un-synced data lost) | <h>,<b>,<m>,<n> kept pending bytes per file (a = all)
 `hp` = does `textproto.ReadHeader` accept the header bytes found after the crash (computed by the real code).
 
@@ -41,6 +44,20 @@ def nextOp (P : Params) (s : St) : Option Op :=
   | .clean (o :: _) => some o
   | .quarantine => some (.rename .metaF .broken)
   | _ => none
+
+/-- Op lines count the file-system CALLS the real code made.  For a zero-length body `io.Copy` issues no
+`Write` at all, while the model's `storeOps` keeps the (zero-length) `write .body []` — a stutter step that
+changes neither disk nor history (`C02_empty_write_stutter`).  The driver therefore takes such steps
+silently, right after the step that made them the next operation. -/
+def skipEmptyWrites (P : Params) (s : St) : Nat → St
+  | 0 => s
+  | fuel + 1 =>
+    match nextOp P s with
+    | some (.write _ []) =>
+      match step? P s .op with
+      | some s' => skipEmptyWrites P s' fuel
+      | none => s
+    | _ => s
 
 def natList (l : List Nat) : String := ".".intercalate (l.map toString)
 
@@ -81,6 +98,7 @@ def parseTok (s : St) (t : String) : Option (List Choice) :=
     | some [n, hl, bl], some nf => some [.accept ((List.range n).map (· + 1)) (List.range hl) (List.range bl) nf]
     | _, _ => none
   | '+' :: rest => (String.ofList rest).toNat?.map (fun k => List.replicate k Choice.op)
+  | 'S' :: rest => (String.ofList rest).toNat?.map (fun _ => [])
   | ['C'] => some [.commit]
   | ['B'] => some [.abort]
   | ['D'] => some [.dispatch]
@@ -173,7 +191,7 @@ def runToks (P : Params) : List String → St → List String → Nat → Except
             let acc' := match c with
               | .restart => labels P s c s'
               | _ => acc ++ labels P s c s'
-            go cs s' acc'
+            go cs (skipEmptyWrites P s' 2) acc'
       match go cs s acc with
       | none => .error s!"bad-step@{i}:{t}"
       | some (s', acc') => runToks P rest s' acc' (i + 1)
